@@ -492,6 +492,15 @@ impl UntypedProgram {
                                 errors.extend(vec![Some(TypeError::new(e, meta))]);
                             }
                         },
+                        ConstExprEnum::Max(_)
+                        | ConstExprEnum::Min(_)
+                        | ConstExprEnum::Add(_, _)
+                        | ConstExprEnum::Sub(_, _)
+                            if !matches!(const_def.ty, Type::Unsigned(_) | Type::Signed(_)) =>
+                        {
+                            let e = TypeErrorEnum::ExpectedNumberType(const_def.ty.clone());
+                            errors.extend(vec![Some(TypeError::new(e, meta))]);
+                        }
                         ConstExprEnum::Max(args) | ConstExprEnum::Min(args) => {
                             for arg in args {
                                 check_const_expr(arg, const_def, errors, const_defs, const_deps);
